@@ -210,6 +210,37 @@ pub fn cmd_probe(args: &[String]) {
     let out = std::io::stdout();
     let mut w = std::io::BufWriter::new(out.lock());
     use std::io::Write;
+    // two-MARK family: [B, MARK, mid.., MARK, top..] — the guards must look at the TOPMOST mark
+    // and at the slots next to it, whatever lies below an older MARK (guards only, no apply)
+    let seqs = |alphabet: &str, maxlen: usize| -> Vec<String> {
+        let a: Vec<char> = alphabet.chars().collect();
+        let mut all = vec![String::new()];
+        let mut frontier = vec![String::new()];
+        for _ in 0..maxlen {
+            let mut next = Vec::new();
+            for s in &frontier {
+                for k in &a {
+                    let mut t = s.clone();
+                    t.push(*k);
+                    next.push(t);
+                }
+            }
+            all.extend(next.iter().cloned());
+            frontier = next;
+        }
+        all
+    };
+    let no_memo: Vec<(usize, char)> = Vec::new();
+    for b in "ldeci".chars() {
+        for mid in seqs("ldecis", 2) {
+            for top in seqs("ldecist", 2) {
+                let stack = format!("{}M{}M{}", b, mid, top);
+                let st = St { stack: &stack, memo: &no_memo };
+                let line = probe_line(&st, false, true, true, false, true, false, &ops);
+                writeln!(w, "{}", line).unwrap();
+            }
+        }
+    }
     for stack in &stacks {
         let n = stack.chars().count();
         let memo_sizes: &[usize] = if n <= 2 { &[0, 1, 2, 255, 256, 257] } else { &[0, 256] };
